@@ -277,6 +277,38 @@ def r16_5(ctx, rep):
                "isinstance(%s, _DefaultValue)): a start written on the canonical variable is overwritten by an alias's" % (v, v))
 
 
+@SPEC.rule(
+    "R16.6",
+    "every merged alias goes through the whole merge: from the lookup of the alias's variable every path to the end of the iteration passes "
+    "an update of the min, max, nominal and fixed accumulators (or a test on that very attribute of the alias, which R16.4 judges) — a "
+    "`continue` taken because the start values agree, or any other early exit after the alias has been accepted, drops its bounds, nominal "
+    "and fixed flag",
+)
+def r16_6(ctx, rep):
+    from ..pyutil import inlined
+    R = "R16.6"
+    outer, inner, cst, ast_ = _merge_loops(ctx, R)
+    acc = _accumulators(outer, inner, cst)
+    cfg = CFG(ast.Module(body=[inner], type_ignores=[]), R)
+    it = [x for x in cfg.nodes if x.kind == "iter" and x.ast is inner][0]
+    look = [x for x in cfg.stmts() if isinstance(x.ast, ast.Assign) and is_name(x.ast.targets[0], ast_)]
+    if not look:
+        raise MechanismMissing(R, "lookup of the alias's variable not found")
+    body = [st for st in ast.walk(inner) if isinstance(st, ast.stmt)]
+    fam = {"min": ("min", "max"), "max": ("min", "max"), "nominal": ("nominal",), "fixed": ("fixed",)}
+    for a in ("min", "max", "nominal", "fixed"):
+        v = acc.get(a)
+        if v is None:
+            continue
+        ups = {x.id for x in cfg.stmts() if isinstance(x.ast, (ast.Assign, ast.AugAssign)) and any(is_name(t, v) for t in (x.ast.targets if isinstance(x.ast, ast.Assign) else [x.ast.target]))}
+        own_tests = {x.id for x in cfg.nodes if x.kind == "assume" and any(
+            isinstance(y, ast.Attribute) and is_name(y.value, ast_) and y.attr in fam[a] for y in ast.walk(inlined(x.ast, body, keep={ast_, cst} | set(acc.values()))))}
+        w = cfg.path(look[0].id, it.id, avoid=ups | own_tests)
+        rep.ob(R, SITE, "every merged alias reaches the %s update" % a, w is None,
+               "after the alias's variable has been looked up an iteration can end without touching the %s accumulator and without a test on the alias's own "
+               "%s: that alias's %s is lost" % (a, "/".join(fam[a]), a), path=cfg.describe(w) if w else "")
+
+
 # -- seeded variants ---------------------------------------------------------
 from ._mut import delete_stmt_where, replace_in_func  # noqa: E402
 
@@ -354,6 +386,18 @@ def _m_start_fallthrough(mod):
                 return True
             if isinstance(n, ast.If) and norm(n.test) == "not isinstance(start, _DefaultValue)" and n.orelse:
                 n.test = ast.parse("not isinstance(start, _DefaultValue) and start != alias_start_mx", mode="eval").body
+                return True
+        return False
+
+    return mod if replace_in_func(mod, "Model._simplify_once", edit) else None
+
+
+@SPEC.mutant("equal-start branch skips the rest of the merge", MODEL, "R16.6", "reaches the")
+def _m_equal_start_continue(mod):
+    def edit(fn):
+        for n in ast.walk(fn):
+            if isinstance(n, ast.If) and "start != alias_start_mx" in norm(n.test) and n.orelse and isinstance(n.orelse[0], ast.Pass):
+                n.orelse = [ast.Continue()]
                 return True
         return False
 
